@@ -79,11 +79,12 @@ type GenOpts struct {
 	Biases       []string // allowed biases (nil = all six)
 	MinBiases    int
 	MaxBiases    int
-	MinAlts      int // default 1
-	MaxAlts      int // default 7
-	MinCrit      int // default 1
-	MaxCrit      int // default 5 (Choquet 4)
-	ValueMode    int // -1 = draw; see genValue
+	BigTiers     bool // one request in 16 has 8-20 alternatives and up to 12 criteria, one in 1024 has 65-70 alternatives
+	MinAlts      int  // default 1
+	MaxAlts      int  // default 7
+	MinCrit      int  // default 1
+	MaxCrit      int  // default 5 (Choquet 4)
+	ValueMode    int  // -1 = draw; see genValue
 	TieHeavy     bool
 	Probes       bool // interleave the probe bias (probability 1) around real biases
 	AllowProb    bool // applyProbability other than absent/1
@@ -198,14 +199,24 @@ func (s *genState) genProblem(req M) {
 	if maxC == 0 {
 		maxC = 5
 	}
-	if s.method == "choquetIntegral" && maxC > 4 {
-		maxC = 4
+	minA, maxA := o.MinAlts, o.MaxAlts
+	choquetCap := 4
+	if o.BigTiers {
+		if g.Rare(4) {
+			minA, maxA, maxC, choquetCap = 8, 20, 12, 6
+			s.label("size=big")
+		} else if g.Rare(10) {
+			minA, maxA, maxC, choquetCap = 65, 70, 20, 6
+			s.label("size=huge")
+		}
+	}
+	if s.method == "choquetIntegral" && maxC > choquetCap {
+		maxC = choquetCap // the capacity table has 2^n entries
 	}
 	if minC > maxC {
 		minC = maxC
 	}
 	nc := g.Int(minC, maxC)
-	minA, maxA := o.MinAlts, o.MaxAlts
 	if minA == 0 {
 		minA = 1
 	}
@@ -500,7 +511,11 @@ func (s *genState) genMethodParams(req M) M {
 		additive := g.Chance(1, 6)
 		single := map[string]float64{}
 		for _, id := range s.critIds {
-			single[id] = float64(g.Int(0, 4)) / 16
+			den := 16.0 // singleton capacities whose sum stays within [0,1] (additive capacities are sums of them)
+			if nc > 4 {
+				den = 32
+			}
+			single[id] = float64(g.Int(0, 4)) / den
 		}
 		grid := g.Chance(1, 2)
 		for mask := 1; mask < 1<<uint(nc); mask++ {
@@ -599,7 +614,7 @@ func (s *genState) genMethodParams(req M) M {
 		}
 	case "aspectEliminationHeuristic":
 		var w M
-		if g.Chance(4, 5) {
+		if g.Chance(4, 5) || len(s.critIds) > 6 { // the oracle enumerates the tie-breaks of equal weights: k! orders
 			w = s.distinctWeights()
 		} else {
 			w = s.genWeights(false)
